@@ -252,7 +252,7 @@ def rule_r3_r4(repo, run):
             src = um.seg(test)
             if pyflow.const_str(getattr(test, "comparators", [None])[0]) == "\f" and pol:
                 ff_path = True
-            if src.replace(" ", "") in ("not%s" % part,) and pol:
+            if (src.replace(" ", "") in ("not%s" % part,) and pol) or (src.strip() == part and not pol):
                 empty_after_strip = True
         for st in p.stmts:
             if isinstance(st, ast.AugAssign) and pyflow.is_name(st.target, pending) and pyflow.is_name(st.value, part):
@@ -273,7 +273,8 @@ def rule_r3_r4(repo, run):
         if skipped:
             # `if not part: continue` : nothing to conserve
             run.check(R3, "util.WrapperMixin.write_continue.path%d" % i,
-                      any(um.seg(t).replace(" ", "") == "not%s" % part and pol for t, pol in p.conds),
+                      any((um.seg(t).replace(" ", "") == "not%s" % part and pol) or (um.seg(t).strip() == part and not pol)
+                          for t, pol in p.conds),
                       "a part is skipped on a path other than the empty-part path: %s" % cond_desc, um.loc(emit))
             continue
         run.check(R3, "util.WrapperMixin.write_continue.path%d" % i,
